@@ -295,7 +295,7 @@ pub fn run_buffered(input: &[u8], cfg: u8, script: &Script, extra: usize, stop_a
         let mut after_eof = 0;
         let mut buf = Vec::new();
         for _ in 0..cap + extra {
-            buf.clear();
+            crate::env::prepare_user_buf(script.user_buf, &mut buf);
             let r = reader.read_event_into(&mut buf);
             let ev = Ev::from_result(&r);
             drop(r);
@@ -336,7 +336,7 @@ pub fn run_async(input: &[u8], cfg: u8, script: &Script, extra: usize, stop_at_e
         let mut after_eof = 0;
         let mut buf = Vec::new();
         for _ in 0..cap + extra {
-            buf.clear();
+            crate::env::prepare_user_buf(script.user_buf, &mut buf);
             let ev = match block_on(reader.read_event_into_async(&mut buf), horizon) {
                 Some(r) => Ev::from_result(&r),
                 None => {
